@@ -60,6 +60,9 @@ pub struct AG {
     pub implicit_tokens: Vec<usize>,
     #[serde(default)]
     pub stratum: String,
+    /// declare every token with %token, in AG order (so that token indices follow the AG order)
+    #[serde(default)]
+    pub declare_all: bool,
 }
 
 impl AG {
@@ -252,6 +255,8 @@ pub struct GenOpts {
     /// precedence lines allowed (expr stratum, and random lines on rand)
     pub precedence: bool,
     pub avoid_insert: bool,
+    /// sometimes (1/10) add 58..=135 keyword tokens so that token sets span several machine words
+    pub pad_tokens: bool,
 }
 
 impl GenOpts {
@@ -266,6 +271,7 @@ impl GenOpts {
             strata: [5, 2, 2, 1],
             precedence: true,
             avoid_insert: false,
+            pad_tokens: false,
         }
     }
 }
@@ -858,6 +864,70 @@ pub fn gen_repo(ch: &mut Choices) -> AG {
     ag
 }
 
+/// Many-token stratum: 58..=135 keyword tokens `kN` inserted at a random position of the token list
+/// (all tokens then declared in AG order), used by a new rule `Kw` that the start rule reaches
+/// through a fresh first token. Token sets (FIRST/FOLLOW/lookaheads) then span 2-3 machine words
+/// with the original tokens in the first, a middle or the last word.
+pub fn pad_tokens(ch: &mut Choices, ag: &mut AG) {
+    let nt = ag.tokens.len();
+    if ag.tokens.iter().any(|t| t.starts_with('k') && t[1..].chars().all(|c| c.is_ascii_digit()) && t.len() > 1) {
+        return;
+    }
+    let k = ch.range(58, 135);
+    let at = ch.pick(nt + 1);
+    let remap = |t: usize| if t >= at { t + k } else { t };
+    for r in &mut ag.rules {
+        for p in &mut r.prods {
+            for s in &mut p.syms {
+                if let Sym::T(t) = s {
+                    *t = remap(*t);
+                }
+            }
+            if let Some(t) = &mut p.prec {
+                *t = remap(*t);
+            }
+        }
+    }
+    for l in &mut ag.precs {
+        for t in &mut l.tokens {
+            *t = remap(*t);
+        }
+    }
+    for t in &mut ag.avoid_insert {
+        *t = remap(*t);
+    }
+    for t in &mut ag.implicit_tokens {
+        *t = remap(*t);
+    }
+    for (t, _) in &mut ag.epp {
+        *t = remap(*t);
+    }
+    let pads: Vec<String> = (0..k).map(|i| format!("k{i}")).collect();
+    let tail = ag.tokens.split_off(at);
+    ag.tokens.extend(pads);
+    ag.tokens.extend(tail);
+    let kw = ag.rules.len();
+    ag.rules.push(AgRule {
+        name: "Kw".into(),
+        prods: (0..k)
+            .map(|i| AgProd {
+                syms: vec![Sym::T(at + i)],
+                prec: None,
+                action: None,
+            })
+            .collect(),
+        actiontype: ag.rules[0].actiontype.clone(),
+    });
+    let st = ag.start;
+    ag.rules[st].prods.push(AgProd {
+        syms: vec![Sym::T(at), Sym::R(kw)],
+        prec: None,
+        action: None,
+    });
+    ag.declare_all = true;
+    ag.stratum.push_str("+padded");
+}
+
 /// Main entry: pick a stratum, generate, and (unless allowed) remove derivation cycles.
 pub fn gen_grammar(ch: &mut Choices, o: &GenOpts) -> AG {
     let mut ag = match ch.weighted(&o.strata) {
@@ -896,6 +966,9 @@ pub fn gen_grammar(ch: &mut Choices, o: &GenOpts) -> AG {
         if !o.allow_cycles {
             repair_cycles(&mut ag);
         }
+    }
+    if o.pad_tokens && ch.chance(1, 10) {
+        pad_tokens(ch, &mut ag);
     }
     if o.avoid_insert && ch.chance(1, 3) {
         let nt = ag.tokens.len();
@@ -1105,7 +1178,7 @@ pub fn render_simple(ag: &AG) -> String {
             }
         }
     }
-    let undeclared: Vec<usize> = (0..ag.tokens.len()).filter(|t| !used[*t]).collect();
+    let undeclared: Vec<usize> = (0..ag.tokens.len()).filter(|t| !used[*t] || ag.declare_all).collect();
     if !undeclared.is_empty() {
         s.push_str("%token");
         for t in undeclared {
